@@ -111,11 +111,29 @@ package file
 
 // assumed from its two halves (CreateODS, createQ4: each returns nil only after the file was written,
 // flushed and closed; the goroutine join returns nil only if both did)
-//@ func CreateODSQ4
-//@   property C07
-//@   trusted
+// (call-site view of CreateODSQ4: nil means both files were written, flushed and closed. The body view
+// below proves the part of it that is this function's own: nil is returned only when *both* writers -
+// the ODS writer and the Q4 writer running beside it - reported success, each was given its own path and
+// the same square; in particular an "already exists" from either writer is never swallowed, so the
+// caller's size validation of a leftover file always runs.)
+//@ extern github.com/celestiaorg/celestia-node/store/file.CreateODSQ4
 //@   effect $Complete := err == nil
 //@   effect $CreateErr := err != nil
+
+//@ func CreateODSQ4
+//@   property C07
+//@   noframe
+//@   havoc $Complete $CreateErr $FdOpen $Flushed $AllWritten $HdrWritten $RootsWritten
+//@   requires !$FdOpen && !$Flushed && !$AllWritten && !$HdrWritten && !$RootsWritten
+//@   callpre file.CreateODS: $arg0 == pathODS && $arg1 == roots && $arg2 == eds
+//@   checks result == nil ==> err == nil && q4Err == nil
+//@   checks is(err, os.ErrExist) || is(q4Err, os.ErrExist) ==> is(result, os.ErrExist)
+
+//@ func CreateODSQ4$1
+//@   property C07
+//@   noframe
+//@   requires !$FdOpen && !$Flushed && !$AllWritten
+//@   callpre createQ4: $arg0 == pathQ4 && $arg1 == eds
 
 // (call-site view of CreateODS: nil means written, flushed and closed, see its contract below)
 //@ extern github.com/celestiaorg/celestia-node/store/file.CreateODS
@@ -200,6 +218,7 @@ package file
 //@ func createQ4
 //@   property C07
 //@   noframe
+//@   havoc $FdOpen $Flushed $AllWritten
 //@   requires !$FdOpen && !$Flushed && !$AllWritten
 //@   only os.: OpenFile Close
 //@   ensures !$FdOpen
